@@ -310,7 +310,7 @@ func (g *G) typedRowCount(env *TEnv) Expr {
 		return x
 	}
 	if g.n("bigcount", 12) == 0 {
-		return &Num{Text: pickFrom(g, "bigcountval", []string{"10", "100", "1000", "0x10", "007"})}
+		return &Num{Text: pickFrom(g, "bigcountval", []string{"10", "100", "1000", "0x10", "007", "2147483648", "4294967296", "9223372036854775807", "9223372036854775808", "18446744073709551615", "18446744073709551616", "99999999999999999999"})}
 	}
 	return &Num{Text: fmt.Sprint(g.n("rowcount", 5))}
 }
